@@ -1159,15 +1159,25 @@ class quantized_linear(base_quantizer.BaseQuantizer):
 
   @classmethod
   def from_config(cls, config):
+    # Convert JSON-serializable lists back to NumPy arrays.
+    if isinstance(config.get("alpha"), (list, tuple)):
+      config = dict(config, alpha=np.array(config["alpha"], dtype=np.float32))
+
     return cls(**config)
 
   def get_config(self):
+
+    alpha = self.alpha
+    if alpha is not None and not self.auto_alpha:
+      # Since arrays / tensors are not directly JSON-serializable,
+      # we convert them to (nested) lists; scalars become Python floats.
+      alpha = np.array(alpha).tolist()
 
     config = {
         "bits": self.bits,
         "integer": self.integer,
         "symmetric": self.symmetric,
-        "alpha": self.alpha,
+        "alpha": alpha,
         "keep_negative": self.keep_negative,
         "use_stochastic_rounding": self.use_stochastic_rounding,
         "scale_axis": self.scale_axis,
